@@ -153,7 +153,7 @@ func vfC02Gen(rt *rapid.T) vfC02Case {
 			if len(op.Qs)+len(op.Nodes) > 4 {
 				op.Nodes = op.Nodes[:4-len(op.Qs)]
 			}
-			op.K = rapid.IntRange(-2, len(live)+2).Draw(rt, "k")
+			op.K = vfGenK(rt, -2, len(live), 2)
 			if rapid.IntRange(0, 2).Draw(rt, "thr_on") == 0 {
 				op.Thr = float32(rapid.Float64Range(0, 6).Draw(rt, "thr"))
 			}
